@@ -64,8 +64,13 @@ def run_standard(mod, tier: str) -> int:
         mod.custom(run, tier)
     if hasattr(mod, "cases"):
         cs = mod.cases(tier, run.rng, run)
-        run.differential(cs, mod.judge, getattr(mod, "nontrivial", None), known_region=getattr(mod, "known_region", None),
-                         impl_fn=getattr(mod, "impl_fn", None))
+        impl_out, _ = run.differential(cs, mod.judge, getattr(mod, "nontrivial", None), known_region=getattr(mod, "known_region", None),
+                                       impl_fn=getattr(mod, "impl_fn", None))
+        if hasattr(mod, "second_pass"):
+            cs2 = mod.second_pass(run, cs, impl_out)
+            if cs2:
+                run.differential(cs2, mod.judge, getattr(mod, "nontrivial", None), known_region=getattr(mod, "known_region", None),
+                                 impl_fn=getattr(mod, "impl_fn", None))
     broken = [f for f in run.findings if f.kind != "failing-input"]
     if broken and not any(f.kind == "failing-input" for f in run.findings) and hasattr(mod, "search"):
         # a proof obligation, the translator or the correspondence broke: look for a concrete failing input
